@@ -376,7 +376,7 @@ def analyse_scenario(sc, res):
             out["anomalies"].append("panic in the connection goroutine (C12): %r" % recv[-200:])
             break
         if kind in ("cmd", "append", "fetch", "list", "status") or kind.startswith("probe"):
-            if o.get("how") != "ok":
+            if o.get("how") != "ok" and not (o.get("how") == "eof" and b"LOGOUT" in recv.upper()):
                 out["anomalies"].append("no tagged completion (%s) for op %s" % (o.get("how"), kind))
             out["stream"] += recv
         if kind == "append":
@@ -735,7 +735,11 @@ def evaluate(chk, scs, results, label):
     rows = []
     for si, fc, e in cases:
         ls = fetch_lines(fc["recv"])
-        obs = ls[0][:-2] if len(ls) >= 1 and ls[0].endswith(b"\r\n") else fc["recv"].split(b"\r\n")[0]
+        if len(ls) >= 1 and ls[0].endswith(b"\r\n"):
+            obs = ls[0][:-2]
+        else:   # malformed stream: everything in front of the tagged completion
+            m = re.search(rb"\r\nq\d+z (OK|NO|BAD) ", fc["recv"])
+            obs = fc["recv"][:m.start()] if m else fc["recv"]
         fc["obs_line"] = obs
         rows.append("(%s, %s, e_%d_%d, %s)" % (C.coq_bool(fc["uid"]), cstr(fc["text"]), si, fc["mi"], cstr(obs)))
     body += "Definition cases : list (bool * str * fenv * str) := [\n%s].\n" % ";\n".join(rows)
@@ -773,6 +777,7 @@ def evaluate(chk, scs, results, label):
         if m != "0":
             nd += 1
             if not ok and (coq_cls or shape):
+                chk.notes.append("informational: model differs from the implementation inside finding class %s on %r: %r" % (coq_cls or shape, fc["text"], fc["obs_line"][:160]))
                 continue        # inside a listed finding class: informational
             if m == "2":
                 chk.notes.append("model predicts a Go panic (C12) for request %r; implementation answered %r" % (fc["text"], fc["obs_line"][:80]))
